@@ -141,6 +141,19 @@ def _window_classes(ivs, t0, t1):
         out.append('ends-on-start-edge')
     if any(t0 == b for _, b in ivs):
         out.append('starts-on-stop-edge')
+    # branches of the modelled index arithmetic (betweenIdx / betweenCore)
+    edges = np.array([x for p in ivs for x in p], dtype=np.float64)
+    if t1 <= t0:
+        out.append('branch:empty-window-early-return')
+    else:
+        s_ = int(np.digitize(t0, edges))
+        e_ = int(np.digitize(t1, edges, right=True))
+        if (e_ + e_ % 2) <= (s_ - s_ % 2):
+            out.append('branch:no-on-time-early-return')
+        else:
+            n_ = ((e_ + e_ % 2) - (s_ - s_ % 2)) // 2
+            out.append('branch:s-%s,e-%s,N%s' % ('even' if s_ % 2 == 0 else 'odd', 'even' if e_ % 2 == 0 else 'odd',
+                                                 '=1' if n_ == 1 else '>1'))
     return out
 
 
@@ -187,6 +200,16 @@ def mk_array(ivs):
     if lay == 3:
         return np.asfortranarray(a)
     return a
+
+
+def arg_forms(t):
+    """the ways a caller may hand one time to a query: python float, numpy scalar, 0-d array, 1-element list / tuple / array,
+    and an int when the value is integral"""
+    forms = [('float', float(t)), ('np.float64', np.float64(t)), ('0-d array', np.array(t, dtype=np.float64)),
+             ('list', [float(t)]), ('tuple', (float(t),)), ('1-array', np.array([t], dtype=np.float64))]
+    if np.isfinite(t) and float(t) == int(t) and abs(t) < 2**52:
+        forms += [('int', int(t)), ('np.int64', np.int64(int(t)))]
+    return forms
 
 
 def mk(ivs):
@@ -348,10 +371,22 @@ def o_is_on(ctx, case):
     for t, g in zip(ts, got):
         if bool(g) != ref_is_on(ivs, t):
             return 'is_on(%r) = %s but the half-open intervals %r say %s' % (t, bool(g), ivs, not bool(g))
-    # scalar call agrees with the array call
-    g0 = lt.is_on(ts[0])
-    if bool(np.atleast_1d(g0)[0]) != ref_is_on(ivs, ts[0]):
-        return 'is_on(scalar %r) wrong' % ts[0]
+    # every documented / numpy-compatible argument form answers like the array call (form chosen per value, replayable)
+    for t in ts[:6]:
+        for name, arg in arg_forms(t):
+            try:
+                g0 = lt.is_on(arg)
+                l0 = lt.get_livetime_upto(arg)
+            except Exception as e:  # noqa
+                return 'is_on / get_livetime_upto(%s %r) on %r raised %s: %s' % (name, t, ivs, type(e).__name__, e)
+            if bool(np.atleast_1d(g0)[0]) != ref_is_on(ivs, t):
+                return 'is_on(%s %r) = %s but the half-open intervals %r say %s' % (name, t, bool(np.atleast_1d(g0)[0]), ivs, ref_is_on(ivs, t))
+            if float(np.atleast_1d(l0)[0]) != float(lt.get_livetime_upto(float(t))):
+                return 'get_livetime_upto(%s %r) differs from the float call on %r' % (name, t, ivs)
+            ctx.count('argform:' + name)
+    e0 = lt.is_on(np.array([], dtype=np.float64))
+    if np.asarray(e0).shape != (0,) or np.asarray(lt.get_livetime_upto(np.array([], dtype=np.float64))).shape != (0,):
+        return 'is_on / get_livetime_upto of an empty array is not an empty array'
     return None
 
 
@@ -360,6 +395,16 @@ def o_between(ctx, case):
     lt = mk(ivs)
     try:
         res = lt.get_uptime_intervals_between(t0, t1)
+        # scalar forms of the bounds (python float above; numpy scalar, 0-d array, int when integral) must not matter
+        sf = [(n, a) for n, a in arg_forms(t0) if n in ('np.float64', '0-d array', 'int', 'np.int64')]
+        ef = [(n, a) for n, a in arg_forms(t1) if n in ('np.float64', '0-d array', 'int', 'np.int64')]
+        k = layout_of([(t0, t1)])
+        (n0, a0), (n1, a1) = sf[k % len(sf)], ef[(k // 2) % len(ef)]
+        res2 = lt.get_uptime_intervals_between(a0, a1)
+        ctx.count('argform:between:%s,%s' % (n0, n1))
+        if np.asarray(res2).tolist() != np.asarray(res).tolist():
+            return ('get_uptime_intervals_between(%s %r, %s %r) on %r = %r differs from the call with python floats %r'
+                    % (n0, t0, n1, t1, ivs, np.asarray(res2).tolist(), np.asarray(res).tolist()))
     except Exception as e:  # noqa
         return 'get_uptime_intervals_between(%r, %r) on %r raised %s: %s' % (t0, t1, ivs, type(e).__name__, e)
     res = np.asarray(res)
@@ -451,6 +496,15 @@ def o_draw(ctx, case):
         return '%s on %r window (%r,%r) raised %s: %s' % (what, ivs, t0, t1, type(e).__name__, e)
     if len(xs) != len(us):
         return '%s returned %d values for size=%d' % (what, len(xs), len(us))
+    try:
+        x0 = lt.draw_ontimes(_StubRSS([]), 0, t_min=t0, t_max=t1)
+        if np.asarray(x0).shape != (0,):
+            return 'draw_ontimes(size=0) returned shape %r' % (np.asarray(x0).shape,)
+        xs_np = lt.draw_ontimes(_StubRSS(us), np.int64(len(us)), t_min=t0, t_max=t1)
+        if [float(v) for v in xs_np] != [float(v) for v in (xs if case.get('via') != 'generator' else xs_np)]:
+            return 'draw_ontimes(size=np.int64(%d)) differs from size=%d' % (len(us), len(us))
+    except Exception as e:  # noqa
+        return 'draw_ontimes(size=0 / numpy int) on %r window (%r,%r) raised %s: %s' % (ivs, t0, t1, type(e).__name__, e)
     lo = ivs[0][0] if t0 is None else t0
     hi = ivs[-1][1] if t1 is None else t1
     for u, x in zip(us, xs):
@@ -796,6 +850,7 @@ def run(ctx):
             j = rng.randrange(0, i + 1)
             cases.append({'kind': 'between', 'ivs': ivs, 't0': sts[i], 't1': sts[j]})
             ctx.count('window-class:reversed-or-empty')
+            ctx.count('window-class:branch:empty-window-early-return')
         # +-inf as query time
         for t in (float('inf'), float('-inf')):
             cases.append({'kind': 'ison', 'ivs': ivs, 't': t})
